@@ -132,7 +132,12 @@ impl WriteSource for pr::ExprKind {
                 // a bound is not an operand of the binary operator around the range
                 opt.binary_position = super::Position::Unspecified;
                 if let Some(start) = &range.start {
-                    let start = write_within(start.as_ref(), self, opt.clone())?;
+                    let start = if matches!(start.kind, Param(_)) {
+                        // the lexer would read the dots as a part of the parameter name
+                        start.kind.write_between("(", ")", opt.clone())?
+                    } else {
+                        write_within(start.as_ref(), self, opt.clone())?
+                    };
                     r += opt.consume(&start)?;
                 }
 
